@@ -182,14 +182,26 @@ class DebugInfo:
                                 end_offset)
             else:
                 # there should have been an empty block marker inside.
+                marked = False
                 for addr in self.empty_blocks:
                     if start_offset <= addr < end_offset:
+                        marked = True
                         add_node_record(block.start_stmt,
                                         start_offset,
                                         addr)
                         add_node_record(block.end_stmt,
                                         addr,
                                         end_offset)
+                if not marked:
+                    # every statement of the block was removed by the
+                    # optimiser: the block's own code still belongs
+                    # to its start statement
+                    add_node_record(block.start_stmt,
+                                    start_offset,
+                                    end_offset)
+                    add_node_record(block.end_stmt,
+                                    end_offset,
+                                    end_offset)
 
         self.stmts.sort(key=lambda r: r.start_offset)
 
